@@ -125,8 +125,11 @@ def gen_case(rng):
         kind, payload = 'misc', rng.choice(['# kapture format: 1.0', '# kapture format: 1.0', '# kapture format: 1.2', '# kapture format: 0.9'])
         dtype_only = True
         opts.force_parts = {'records_camera', 'keypoints'}
+    numcol = (not dtype_only) and rng.random() < 0.25
+    if numcol:
+        opts.force_parts = {'trajectories'}
     return {'path': 'load', 'd': kgen.gen_dataset(rng, opts), 'pick': rng.randrange(10 ** 6), 'payload': payload, 'pclass': kind,
-            'dtype_only': dtype_only}
+            'dtype_only': dtype_only, 'numcol': numcol}
 
 
 def cases(rng, tier):
@@ -147,6 +150,21 @@ def cases(rng, tier):
     return out
 
 
+# columns the format types as numbers: integer timestamps (column 0), floats of a pose (an empty field stands for "no rotation" /
+# "no translation")
+NUMERIC_COLS = {'trajectories.txt': [0, 2, 3, 4, 5, 6, 7, 8], 'rigs.txt': [2, 3, 4, 5, 6, 7, 8], 'records_camera.txt': [0],
+                'records_depth.txt': [0], 'records_lidar.txt': [0], 'records_gnss.txt': [0], 'records_accelerometer.txt': [0],
+                'records_gyroscope.txt': [0], 'records_magnetic.txt': [0], 'records_wifi.txt': [0], 'records_bluetooth.txt': [0]}
+
+
+def valid_number(text, integer):
+    try:
+        int(text) if integer else float(text)
+        return True
+    except ValueError:
+        return False
+
+
 def fill(payload, canary):
     rel = os.path.relpath(canary, '/').replace(os.sep, '/')
     return payload.replace('{canary}', canary).replace('{canary_rel}', rel).replace('{canary_abs}', rel)
@@ -161,8 +179,12 @@ def text_files(root):
     return sorted(out)
 
 
+_written = [None]
+
+
 def mutate_field(root, case, canary):
     """ replaces one field of one text file; returns (file, line index, column, was a dtype column) """
+    _written[0] = None
     rng = random.Random(case['pick'])
     files = text_files(root)
     cfg = [f for f in files if f.split('/')[-1] in ('keypoints.txt', 'descriptors.txt', 'global_features.txt') and 'reconstruction' in f]
@@ -171,6 +193,10 @@ def mutate_field(root, case, canary):
         kp_cfg = [f for f in cfg if f.endswith('/keypoints.txt')]
         if case['payload'].startswith('# kapture format') and kp_cfg and rng.random() < 0.7:
             files = kp_cfg      # its columns are the same in 1.0 and 1.1: only the version line tells the formats apart
+    numeric = [f for f in files if f.split('/')[-1] in NUMERIC_COLS and
+               any(l.strip() and not l.startswith('#') for l in open(os.path.join(root, f)).read().split('\n'))]
+    if case.get('numcol') and numeric:
+        files = numeric
     rel = rng.choice(files)
     p = os.path.join(root, rel)
     lines = open(p).read().split('\n')
@@ -190,9 +216,15 @@ def mutate_field(root, case, canary):
         col = rng.randrange(len(fields))
         if case.get('dtype_only') and rel in cfg:
             col = 1
+        if case.get('numcol') and rel in numeric:
+            col = rng.choice([c for c in NUMERIC_COLS[rel.split('/')[-1]] if c < len(fields)] or [0])
+            if rng.random() < 0.5:
+                i = data_idx[-1]        # the last line of a file is a line like any other
+                fields = [f.strip() for f in lines[i].split(',')]
         if case.get('name_only') and rel in cfg:
             col = 0
         fields[col] = payload.replace(',', ';').replace('\n', ' ')
+        _written[0] = fields[col].strip()
         lines[i] = ', '.join(fields)
         where = (rel, i, col, rel in cfg and col == 1)
     with open(p, 'w') as f:
@@ -302,7 +334,8 @@ def run_real(case):
             before = c20.read_tree(root)
             err, events = monitored(lambda: upgrade_1_0_to_1_1_inplace(root, None, None, None, 'L2', 'L2'))
             after = c20.read_tree(root) if os.path.isdir(root) else {}
-        res.update({'where': list(where), 'present': present, 'error': err, 'before': before, 'after': after,
+        res.update({'where': list(where), 'written_field': None if case.get('big') else _written[0], 'present': present, 'error': err,
+                    'before': before, 'after': after,
                     'canary_hit': bool(os.listdir(CANARY_DIR)), 'root': root})
         # canonical events
         ev = []
@@ -434,6 +467,11 @@ def oracle(case):
                 return {'signature': 'upgrade-writes-outside', 'detail': f'{name} {e[-1][:140]} during {tag}'}
     if case['path'] == 'load' and r['before'] != r['after']:
         return {'signature': 'load-modifies', 'detail': f'directory changed during {tag}'}
+    fname = where[0].split('/')[-1]
+    if case['path'] == 'load' and r['error'] is None and where[2] in NUMERIC_COLS.get(fname, []) and where[2] >= 0:
+        written = r.get('written_field')
+        if written is not None and not valid_number(written, where[2] == 0) and not (written == '' and where[2] >= 2):
+            return {'signature': 'invalid-number-accepted', 'detail': f'{tag} ({written[:60]!r} is no number) loaded without error'}
     if where[3] and case['path'] == 'load' and r['error'] is None:
         from_table = case['pclass'] == 'name'
         if not from_table:
